@@ -99,6 +99,28 @@ func (w *World) PersistRound(maxRetries int) (ok bool, attempts int) {
 }
 
 // storePrefix returns the largest p such that the store's own snapshot equals the reference content after p batches (-1: none).
+// storePrefixes returns every index i whose reference content equals what the store's own snapshot shows (ascending).
+// Several indices match when batches restore an earlier content (e.g. a batch that deletes everything).
+func (w *World) storePrefixes() ([]int, *DumpT) {
+	if w.store == nil || w.closedStore {
+		return nil, nil
+	}
+	ss, err := w.store.Snapshot()
+	if err != nil || ss == nil {
+		return nil, nil
+	}
+	d := DumpSnapshot(ss, w.probes)
+	ss.Close()
+	var out []int
+	for i := range w.models {
+		if w.models[i].DumpT(w.probes).String() == d.String() {
+			out = append(out, i)
+		}
+	}
+	return out, d
+}
+
+// storePrefix returns the largest index whose reference content equals the store's own snapshot (-1: none).
 func (w *World) storePrefix() (int, *DumpT) {
 	if w.store == nil || w.closedStore {
 		return -1, nil
